@@ -121,6 +121,123 @@ class Repo:
                 self.tree[rel] = tree
                 self._index(rel, tree)
                 self.extra_files.append(rel)
+        self._inherit()
+
+    # -- modules of the package, by the names the source uses for them ------
+    def module_rel(self, modname, level=0, from_rel=None):
+        """File of the package module `modname` names (absolute `circuitgraph.x.y`, or relative with `level` dots seen from
+        `from_rel`); None when it is not a module of this package."""
+        if level:
+            base = (from_rel or "").split("/")[:-1]
+            for _ in range(level - 1):
+                if not base:
+                    return None
+                base = base[:-1]
+            parts = base + (modname.split(".") if modname else [])
+        elif modname == "circuitgraph":
+            parts = []
+        elif modname and modname.startswith("circuitgraph."):
+            parts = modname.split(".")[1:]
+        else:
+            return None
+        if parts and "/".join(parts) + ".py" in self.tree:
+            return "/".join(parts) + ".py"
+        cand = "/".join(parts + ["__init__.py"])
+        return cand if cand in self.tree else None
+
+    def imported_names(self, rel, module_level_only=False):
+        """{local name: ('module', file) | ('name', file, original name)} for every import of a package module in `rel`."""
+        if not hasattr(self, "_imported"):
+            self._imported = {}
+        key = (rel, module_level_only)
+        if key in self._imported:
+            return self._imported[key]
+        out = {}
+
+        def walk(nodes):
+            for st in nodes:
+                if isinstance(st, (ast.FunctionDef, ast.AsyncFunctionDef, ast.ClassDef, ast.Lambda)) and module_level_only:
+                    continue
+                if isinstance(st, ast.Import):
+                    for al in st.names:
+                        f = self.module_rel(al.name)
+                        if f is None:
+                            continue
+                        if al.asname:
+                            out[al.asname] = ("module", f)
+                        else:
+                            out["circuitgraph"] = ("module", "__init__.py")
+                elif isinstance(st, ast.ImportFrom):
+                    f = self.module_rel(st.module, st.level, rel)
+                    if f is None:
+                        continue
+                    for al in st.names:
+                        sub = None
+                        if f.endswith("__init__.py"):
+                            d = f[: -len("__init__.py")]
+                            sub = d + al.name + ".py" if d + al.name + ".py" in self.tree else d + al.name + "/__init__.py" if d + al.name + "/__init__.py" in self.tree else None
+                        out[al.asname or al.name] = ("module", sub) if sub else ("name", f, al.name)
+                walk(ast.iter_child_nodes(st))
+
+        walk(self.tree[rel].body)
+        self._imported[key] = out
+        return out
+
+    def class_of_expr(self, rel, expr, depth=0):
+        """(file, name) of the repository class a base-class expression names, or None."""
+        if depth > 6:
+            return None
+        if isinstance(expr, ast.Name):
+            if (rel, expr.id) in self.classes:
+                return (rel, expr.id)
+            imp = self.imported_names(rel).get(expr.id)
+            if imp and imp[0] == "name":
+                if (imp[1], imp[2]) in self.classes:
+                    return (imp[1], imp[2])
+                if imp[1] != rel:
+                    return self.class_of_expr(imp[1], ast.Name(id=imp[2]), depth + 1)
+            return None
+        if isinstance(expr, ast.Attribute) and isinstance(expr.value, ast.Name):
+            imp = self.imported_names(rel).get(expr.value.id)
+            if imp and imp[0] == "module":
+                return self.class_of_expr(imp[1], ast.Name(id=expr.attr), depth + 1)
+        return None
+
+    def _inherit(self):
+        """Methods a class of the package inherits from other classes of the package (mixins, possibly in other modules) are
+        reachable under the inheriting class's own name too: `(file, 'C.m')` -> the FuncInfo of the defining class."""
+        self.class_mro = {}
+        self.inherited = {}
+
+        def mro(key, stack=()):
+            if key in self.class_mro:
+                return self.class_mro[key]
+            if key in stack:
+                return [key]
+            bases = [b for b in (self.class_of_expr(key[0], e) for e in self.classes[key].bases) if b is not None]
+            seqs = [list(mro(b, stack + (key,))) for b in bases] + [list(bases)]
+            out = [key]
+            while any(seqs):
+                for s in seqs:
+                    if s and not any(s[0] in t[1:] for t in seqs):
+                        head = s[0]
+                        break
+                else:
+                    head = next(s[0] for s in seqs if s)  # inconsistent hierarchy: CPython refuses it at import; keep going
+                out.append(head)
+                seqs = [[x for x in s if x != head] for s in seqs]
+            self.class_mro[key] = out
+            return out
+
+        for key in list(self.classes):
+            for b in mro(key)[1:]:
+                for (f, q), fi in list(self.funcs.items()):
+                    if f != b[0] or not q.startswith(b[1] + "."):
+                        continue
+                    alias = (key[0], key[1] + q[len(b[1]):])
+                    if alias not in self.funcs:
+                        self.funcs[alias] = fi
+                        self.inherited[alias] = (f, q)
 
     def _index(self, rel, tree):
         def visit(node, prefix, cls, parent):
@@ -213,10 +330,13 @@ class ConstEnv:
                             self._mod[t.id] = self.eval(st.value, _modonly=True)
                         except ValueError:
                             pass
-                elif isinstance(st, ast.ImportFrom) and st.module and st.module.startswith("circuitgraph"):
-                    # from circuitgraph.circuit import supported_types
+                elif isinstance(st, ast.ImportFrom) and (st.level or (st.module or "").startswith("circuitgraph")):
+                    # from circuitgraph.circuit import supported_types / from ._tables import _GATES
+                    target = self.repo.module_rel(st.module, st.level, self.rel)
                     for al in st.names:
                         v = resolve_pkg_const(self.repo, al.name)
+                        if v is None and target and target != self.rel and not target.endswith("__init__.py"):
+                            v = module_const(self.repo, target, al.name)
                         if v is not None:
                             self._mod[al.asname or al.name] = v
         return self._mod
@@ -270,6 +390,24 @@ class ConstEnv:
 
 
 _PKG_CONST_CACHE = {}
+_MODULE_CONST_BUSY = set()
+
+
+def module_const(repo, rel, name):
+    """Value of the module-level constant `name` of the package file `rel` (following imports from other files of the package);
+    None when it is not a constant the ConstEnv can read."""
+    key = (id(repo), rel, name)
+    if key in _PKG_CONST_CACHE:
+        return _PKG_CONST_CACHE[key]
+    if (id(repo), rel) in _MODULE_CONST_BUSY or rel not in repo.tree:
+        return None
+    _MODULE_CONST_BUSY.add((id(repo), rel))
+    try:
+        val = ConstEnv(repo, rel).module_consts().get(name)
+    finally:
+        _MODULE_CONST_BUSY.discard((id(repo), rel))
+    _PKG_CONST_CACHE[key] = val
+    return val
 
 
 def resolve_pkg_const(repo, name):
@@ -289,6 +427,11 @@ def resolve_pkg_const(repo, name):
                 except ValueError:
                     pass
         val = env.get(name)
+        if val is None:
+            # the vocabulary may live in a module of its own that circuit.py imports it from
+            imp = repo.imported_names("circuit.py", module_level_only=True).get(name)
+            if imp and imp[0] == "name" and imp[1] != "circuit.py" and not imp[1].endswith("__init__.py"):
+                val = module_const(repo, imp[1], imp[2])
         if val is not None and not (isinstance(val, list) and all(isinstance(x, str) for x in val)):
             val = None
     _PKG_CONST_CACHE[key] = val
